@@ -101,4 +101,11 @@ CHECKS = {
         "budget_s": {"quick": 170, "thorough": 900},
         "confirm": 2,
     },
+    "C15": {
+        "pkg": "checks/c15", "level": "model_checking", "engine": "E2 explicit-state",
+        "technique": "explicit-state BFS over operation histories of the real msg.Box (receive, burst, send, tick, idle) with deduplication on a reflection dump, checked against a map-based reference model, plus a release horizon from every shallow state and long generated cycles",
+        "level_text": "every history up to the depth bound over the alphabet, two expiry settings; no call fails, bounds hold in every state, messages within the limits are handed over by the next send, and after the release horizon nothing is retained for started or expired topics",
+        "level_note": "sequential histories (thread interleavings are C14/C20); small limits (2 topics per sender, GCSweep 1s, GCExpire 2s/4s); the per-sender message limit is the constant 100; lazy expiry is tolerated inside a history and demanded only after the release horizon",
+        "budget_s": {"quick": 170, "thorough": 900},
+    },
 }
